@@ -1,5 +1,9 @@
-(* Correspondence driver: runs the extracted Coq model (model.ml) on case files written by the
-   Go harness and prints one observation per line.  Trusted for the correspondence only. *)
+(* Correspondence driver: runs the extracted Coq model (model.ml) on commands written by the
+   Go harness and prints one observation per line.  Trusted for the correspondence only.
+
+   The model is polymorphic in the matcher / URL-policy / rewriter types and takes their
+   interpretation (and the oracles for net/url and douceur) as a record of functions; the
+   driver instantiates them with the types below and with tables filled by ORACLE lines. *)
 open Model
 
 let rec pos_of_int (i : int) : positive =
@@ -8,6 +12,9 @@ let n_of_int (i : int) : n = if i = 0 then N0 else Npos (pos_of_int i)
 let rec int_of_pos (p : positive) : int =
   match p with XH -> 1 | XO q -> 2 * int_of_pos q | XI q -> 2 * int_of_pos q + 1
 let int_of_n (x : n) : int = match x with N0 -> 0 | Npos p -> int_of_pos p
+let rec nat_of_int (i : int) : nat = if i <= 0 then O else S (nat_of_int (i - 1))
+let rec int_of_nat (x : nat) : int = match x with O -> 0 | S y -> 1 + int_of_nat y
+let int_of_z (x : z) : int = match x with Z0 -> 0 | Zpos p -> int_of_pos p | Zneg p -> - (int_of_pos p)
 
 let char_of_ascii (a : ascii) : char =
   match a with Ascii (b0, b1, b2, b3, b4, b5, b6, b7) ->
@@ -23,7 +30,21 @@ let bytes_of_hex (h : String.t) : n list =
     go (l - 1) []
   end
 let hex_of_bytes (b : n list) : String.t =
-  if b = [] then "-" else String.concat "" (List.map (fun x -> Printf.sprintf "%02x" (int_of_n x)) b)
+  if b = [] then "-" else begin
+    let buf = Buffer.create 64 in
+    List.iter (fun x -> Buffer.add_string buf (Printf.sprintf "%02x" (int_of_n x))) b;
+    Buffer.contents buf
+  end
+(* "_" = empty list, otherwise comma separated hex strings *)
+let list_of_hexes (s : String.t) : n list list =
+  if s = "_" then [] else List.map bytes_of_hex (String.split_on_char ',' s)
+let hexes_of_list (l : n list list) : String.t =
+  if l = [] then "_" else String.concat "," (List.map hex_of_bytes l)
+let ostring_of_bytes (b : n list) : String.t =
+  String.init (List.length b) (fun i -> Char.chr (int_of_n (List.nth b i)))
+let quoted (b : n list) : String.t =
+  (* Go %q-like rendering is not needed to be identical: both sides print hex *)
+  hex_of_bytes b
 
 (* regexp wire format (prefix):  E e B Z | C neg n lo hi .. | . a b | '|' a b | * a *)
 let parse_re (toks : String.t list) : re * String.t list =
@@ -49,10 +70,180 @@ let parse_re (toks : String.t list) : re * String.t list =
     | [] -> failwith "regexp truncated" in
   go toks
 
+(* ---- instantiation of the model's type parameters ---------------------------------------- *)
+type m =
+  | MRe of String.t * re          (* regexp: registered id, AST *)
+  | MDefault of n list            (* css.GetDefaultHandler(property) *)
+  | MCustom of String.t           (* named callback of the harness library *)
+type u = UData | UNamed of String.t
+type r = RNamed of String.t
+
 let regexps : (String.t, re) Hashtbl.t = Hashtbl.create 97
+let regexp_ids : (String.t, int) Hashtbl.t = Hashtbl.create 97
+let next_rid = ref 0
+let rid (id : String.t) : int =
+  match Hashtbl.find_opt regexp_ids id with
+  | Some i -> i
+  | None -> incr next_rid; Hashtbl.replace regexp_ids id !next_rid; !next_rid
+let get_re (id : String.t) : m =
+  match Hashtbl.find_opt regexps id with
+  | Some r -> MRe (id, r)
+  | None -> failwith ("unknown regexp " ^ id)
+
+let o_url : (String.t, url option) Hashtbl.t = Hashtbl.create 997
+let o_css : (String.t, (n list * n list) list option) Hashtbl.t = Hashtbl.create 997
+let o_h : (String.t, bool) Hashtbl.t = Hashtbl.create 997
+let o_rw : (String.t, n list) Hashtbl.t = Hashtbl.create 97
+let misses : String.t list ref = ref []
+let miss (s : String.t) = if not (List.mem s !misses) then misses := s :: !misses
+
+let example_org = bytes_of_hex "6578616d706c652e6f7267"
+let the_interp : (m, u, r) interp = {
+  mmatch = (fun mt v ->
+    match mt with
+    | MRe (_, r) -> search r (runes v)
+    | MDefault prop ->
+      let k = "d:" ^ hex_of_bytes prop ^ " " ^ hex_of_bytes v in
+      (match Hashtbl.find_opt o_h k with Some b -> b | None -> miss ("h " ^ k); false)
+    | MCustom name ->
+      let k = "c:" ^ name ^ " " ^ hex_of_bytes v in
+      (match Hashtbl.find_opt o_h k with Some b -> b | None -> miss ("h " ^ k); false));
+  upol = (fun f url ->
+    match f with
+    | UData -> data_uri_image_policy url
+    | UNamed "always" -> true
+    | UNamed "never" -> false
+    | UNamed "hostex" -> url.u_host = example_org
+    | UNamed "noquery" -> url.u_rawquery = []
+    | UNamed s -> failwith ("unknown url policy " ^ s));
+  rewrite = (fun f s ->
+    match f with RNamed name ->
+      let k = name ^ " " ^ hex_of_bytes s in
+      (match Hashtbl.find_opt o_rw k with Some b -> b | None -> miss ("rw " ^ k); s));
+  url_parse = (fun s ->
+    let k = hex_of_bytes s in
+    match Hashtbl.find_opt o_url k with Some x -> x | None -> miss ("url " ^ k); None);
+  css_decls = (fun s ->
+    let k = hex_of_bytes s in
+    match Hashtbl.find_opt o_css k with Some x -> x | None -> miss ("css " ^ k); None);
+}
+
+let policies : (String.t, (m, u, r) policy) Hashtbl.t = Hashtbl.create 97
+let get_policy (id : String.t) = match Hashtbl.find_opt policies id with Some p -> p | None -> failwith ("unknown policy " ^ id)
+let default_handler (prop : n list) : m = MDefault prop
+
+let opt_re (s : String.t) : m option = if s = "-" then None else Some (get_re s)
+
+let parse_scope (toks : String.t list) : m scope =
+  match toks with
+  | ["E"; els] -> OnElements (list_of_hexes els)
+  | ["M"; id] -> (match get_re id with MRe (_, _) as mm -> OnElementsMatching (n_of_int (rid id), mm) | _ -> failwith "scope")
+  | ["G"] -> Globally
+  | _ -> failwith "bad scope"
+
+let parse_op (toks : String.t list) : (m, u, r) op =
+  let b s = (s = "1") in
+  match toks with
+  | "attrs" :: names :: re :: noattrs :: sc -> OAllowAttrs (list_of_hexes names, opt_re re, b noattrs, parse_scope sc)
+  | "styles" :: props :: h :: enum :: re :: sc ->
+    OAllowStyles (list_of_hexes props, (if h = "-" then None else Some (MCustom h)), list_of_hexes enum, opt_re re, parse_scope sc)
+  | ["elements"; names] -> OAllowElements (list_of_hexes names)
+  | ["elementsmatching"; id] -> OAllowElementsMatching (n_of_int (rid id), get_re id)
+  | ["data"] -> OAllowDataAttributes
+  | ["comments"] -> OAllowComments
+  | ["schemes"; names] -> OAllowURLSchemes (list_of_hexes names)
+  | ["schemecustom"; s; cb] -> OAllowURLSchemeWithCustomPolicy (bytes_of_hex s, (if cb = "data" then UData else UNamed cb))
+  | ["schemesmatching"; id] -> OAllowURLSchemesMatching (get_re id)
+  | ["rewritesrc"; name] -> ORewriteSrc (RNamed name)
+  | ["nofollow"; x] -> ORequireNoFollowOnLinks (b x)
+  | ["nofollowfq"; x] -> ORequireNoFollowOnFullyQualifiedLinks (b x)
+  | ["noreferrer"; x] -> ORequireNoReferrerOnLinks (b x)
+  | ["noreferrerfq"; x] -> ORequireNoReferrerOnFullyQualifiedLinks (b x)
+  | ["crossorigin"; x] -> ORequireCrossOriginAnonymous (b x)
+  | ["targetblank"; x] -> OAddTargetBlankToFullyQualifiedLinks (b x)
+  | ["parseable"; x] -> ORequireParseableURLs (b x)
+  | ["relative"; x] -> OAllowRelativeURLs (b x)
+  | ["sandbox"; vals] -> ORequireSandboxOnIFrame (if vals = "_" then [] else List.map (fun s -> n_of_int (int_of_string s)) (String.split_on_char ',' vals))
+  | ["addspaces"; x] -> OAddSpaceWhenStrippingTag (b x)
+  | ["skip"; names] -> OSkipElementsContent (list_of_hexes names)
+  | ["keep"; names] -> OAllowElementsContent (list_of_hexes names)
+  | ["unsafe"; x] -> OAllowUnsafe (b x)
+  | k :: _ -> failwith ("unknown op " ^ k)
+  | [] -> failwith "empty op"
+
+(* ---- rendering of observations ------------------------------------------------------------- *)
+let attrs_str (a : attr list) : String.t =
+  if a = [] then "_" else String.concat "," (List.map (fun (k, v) -> hex_of_bytes k ^ "=" ^ hex_of_bytes v) a)
+let parse_attrs (s : String.t) : attr list =
+  if s = "_" then [] else
+  List.map (fun kv -> match String.split_on_char '=' kv with
+                      | [k; v] -> (bytes_of_hex k, bytes_of_hex v)
+                      | _ -> failwith "bad attr") (String.split_on_char ',' s)
+
+let token_str (t : token) : String.t =
+  match t with
+  | TText d -> "t:" ^ hex_of_bytes d
+  | TStart (nm, a) -> "s:" ^ hex_of_bytes nm ^ ":" ^ attrs_str a
+  | TEnd nm -> "e:" ^ hex_of_bytes nm
+  | TSelf (nm, a) -> "x:" ^ hex_of_bytes nm ^ ":" ^ attrs_str a
+  | TComment d -> "c:" ^ hex_of_bytes d
+  | TDoctype d -> "d:" ^ hex_of_bytes d
+
+let mname (x : m) : String.t =
+  match x with MRe (id, _) -> id | MDefault p -> "default:" ^ ostring_of_bytes p | MCustom s -> "custom:" ^ s
+
+(* same layout as VerifDumpPolicy in /repo/verif_hooks.go (names are printable ASCII in the cases) *)
+let dump_policy (p : (m, u, r) policy) : unit =
+  let q (b : n list) = "\"" ^ ostring_of_bytes b ^ "\"" in
+  let pb k v = Printf.printf "%s=%b\n" k v in
+  pb "addSpaces" p.addSpaces; pb "requireNoFollow" p.requireNoFollow; pb "requireNoFollowFQ" p.requireNoFollowFQ;
+  pb "requireNoReferrer" p.requireNoReferrer; pb "requireNoReferrerFQ" p.requireNoReferrerFQ;
+  pb "requireCrossOrigin" p.requireCrossOrigin; pb "addTargetBlank" p.addTargetBlank;
+  pb "requireParseableURLs" p.requireParseableURLs; pb "allowRelativeURLs" p.allowRelativeURLs;
+  pb "allowDataAttributes" p.allowDataAttributes; pb "allowComments" p.allowComments; pb "allowUnsafe" p.allowUnsafe;
+  let by_key l = List.sort (fun (a, _) (b, _) -> compare a b) l in
+  let skeys l = by_key (List.map (fun (k, v) -> (ostring_of_bytes k, v)) l) in
+  (match p.requireSandbox with
+   | None -> print_string "sandbox=nil\n"
+   | Some l -> Printf.printf "sandbox=[%s]\n" (String.concat "," (List.sort_uniq compare (List.map ostring_of_bytes l))));
+  let aps l = String.concat " " (List.map (fun ap -> match ap with None -> "-" | Some x -> mname x) l) in
+  let sps l = String.concat " " (List.map (fun sp -> match sp with
+      | SPHandler h -> "H:" ^ mname h
+      | SPEnum e -> "E:[" ^ String.concat " " (List.map q e) ^ "]"
+      | SPRegexp r -> "R:" ^ mname r) l) in
+  let dump_map prefix f m =
+    let l = skeys m in
+    if l = [] then Printf.printf "%s {}\n" prefix;
+    List.iter (fun (k, v) -> Printf.printf "%s \"%s\": %s\n" prefix k (f v)) l in
+  List.iter (fun (k, v) -> dump_map ("elsAndAttrs \"" ^ k ^ "\"") aps v) (skeys p.elsAndAttrs);
+  List.iter (fun (k, v) -> dump_map ("elsMatchingAndAttrs " ^ k) aps v)
+    (by_key (List.map (fun ((_, mm), v) -> (mname mm, v)) p.elsMatchingAndAttrs));
+  dump_map "globalAttrs" aps p.globalAttrs;
+  List.iter (fun (k, v) -> dump_map ("elsAndStyles \"" ^ k ^ "\"") sps v) (skeys p.elsAndStyles);
+  List.iter (fun (k, v) -> dump_map ("elsMatchingAndStyles " ^ k) sps v)
+    (by_key (List.map (fun ((_, mm), v) -> (mname mm, v)) p.elsMatchingAndStyles));
+  dump_map "globalStyles" sps p.globalStyles;
+  List.iter (fun (k, v) -> Printf.printf "allowURLSchemes \"%s\": %s\n" k
+                (String.concat " " (List.map (fun f -> match f with UData -> "data" | UNamed s -> s) v)))
+    (skeys p.allowURLSchemes);
+  Printf.printf "allowURLSchemeRegexps: %s\n" (String.concat " " (List.map mname p.allowURLSchemeRegexps));
+  Printf.printf "srcRewriter: %s\n" (match p.srcRewriter with None -> "nil" | Some (RNamed s) -> s);
+  let set l = "[" ^ String.concat " " (List.map (fun s -> "\"" ^ s ^ "\"") (List.sort_uniq compare (List.map ostring_of_bytes l))) ^ "]" in
+  Printf.printf "elsNoAttrs: %s\n" (set p.elsNoAttrs);
+  Printf.printf "elsMatchingNoAttrs: %s\n" (String.concat " " (List.map mname p.elsMatchingNoAttrs));
+  Printf.printf "elsSkipContent: %s\n" (set p.elsSkipContent);
+  print_string "END\n"
 
 let split_ws (s : String.t) : String.t list =
   List.filter (fun x -> x <> "") (String.split_on_char ' ' s)
+
+let with_misses (f : unit -> String.t) : unit =
+  misses := [];
+  let out = f () in
+  if !misses <> [] then Printf.printf "MISS %s\n" (String.concat ";" (List.rev !misses))
+  else (print_string out; print_char '\n')
+
+let chunk_str (c : chunk) : String.t = (if c.checked then "" else "u:") ^ hex_of_bytes c.data
 
 let handle_line (line : String.t) : unit =
   match split_ws line with
@@ -74,6 +265,80 @@ let handle_line (line : String.t) : unit =
           | Some (Some l) -> "fails " ^ (if l = [] then "-" else String.concat "," (List.map (fun x -> string_of_int (int_of_n x)) l)) in
         Printf.printf "R %s %s %s\n" (string_of_chars name) (string_of_chars kind) st) obs) c19_report;
     print_string "END\n"
+  | ["POLICY"; id] -> Hashtbl.replace policies id (new_policy : (m, u, r) policy)
+  | ["COPY"; dst; src] -> Hashtbl.replace policies dst (get_policy src)
+  | "OP" :: id :: toks -> Hashtbl.replace policies id (apply default_handler (get_policy id) (parse_op toks))
+  | ["CLEAR"] -> Hashtbl.reset o_url; Hashtbl.reset o_css; Hashtbl.reset o_h; Hashtbl.reset o_rw
+  | ["ORACLE"; "url"; k; "E"] -> Hashtbl.replace o_url k None
+  | ["ORACLE"; "url"; k; sc; host; op; rq; fr; st] ->
+    Hashtbl.replace o_url k (Some { u_scheme = bytes_of_hex sc; u_host = bytes_of_hex host; u_opaque = bytes_of_hex op;
+                                    u_rawquery = bytes_of_hex rq; u_fragment = bytes_of_hex fr; u_string = bytes_of_hex st })
+  | ["ORACLE"; "css"; k; "E"] -> Hashtbl.replace o_css k None
+  | "ORACLE" :: "css" :: k :: rest ->
+    let rec pairs l = match l with p :: v :: r -> (bytes_of_hex p, bytes_of_hex v) :: pairs r | [] -> [] | _ -> failwith "css oracle" in
+    Hashtbl.replace o_css k (Some (pairs rest))
+  | ["ORACLE"; "h"; name; v; b] -> Hashtbl.replace o_h (name ^ " " ^ v) (b = "1")
+  | ["ORACLE"; "rw"; name; k; v] -> Hashtbl.replace o_rw (name ^ " " ^ k) (bytes_of_hex v)
+  | ["TOK"; hex] ->
+    print_string ("T " ^ String.concat " " (List.map token_str (tokenize (bytes_of_hex hex))) ^ "\n")
+  | ["SAN"; id; hex] ->
+    with_misses (fun () ->
+      let (cs, panicked) = run the_interp (get_policy id) (tokenize (bytes_of_hex hex)) in
+      "S " ^ (if panicked then "1" else "0") ^ " " ^ String.concat " " (List.map chunk_str cs))
+  | ["ENTRY"; which; id; hex] ->
+    with_misses (fun () ->
+      let p = get_policy id and s = bytes_of_hex hex in
+      let out = match which with
+        | "Sanitize" -> sanitize the_interp p s
+        | "SanitizeBytes" -> sanitizeBytes the_interp p s
+        | "SanitizeReader" -> sanitizeReader the_interp p { src_data = s; src_eof = true }
+        | _ -> failwith "entry" in
+      "O " ^ hex_of_bytes out)
+  | ["RW"; id; eof; failat; transient; hex] ->
+    with_misses (fun () ->
+      let fa = int_of_string failat in
+      let sink (k : nat) : bool =
+        let k = int_of_nat k in
+        if fa < 0 then true else if transient = "1" then k <> fa else k < fa in
+      let ((acc, k), e) = sanitize_rw the_interp (get_policy id) { src_data = bytes_of_hex hex; src_eof = (eof = "1") } sink in
+      let es = match e with ErrNone -> "none" | ErrRead -> "read" | ErrWrite -> "write" | ErrPanic -> "panic" in
+      "W " ^ es ^ " " ^ string_of_int (int_of_nat k) ^ " " ^ hexes_of_list acc)
+  | ["ATTRS"; id; elem; attrs] ->
+    with_misses (fun () ->
+      let p = get_policy id and el = bytes_of_hex elem in
+      match element_policies the_interp p el with
+      | None -> "A 0 _"
+      | Some aps ->
+        let a = parse_attrs attrs in
+        let out = match a with [] -> [] | _ -> sanitize_attrs the_interp p el a aps in
+        "A 1 " ^ attrs_str out)
+  | ["URL"; id; hex] ->
+    with_misses (fun () ->
+      match valid_url the_interp (get_policy id) (bytes_of_hex hex) with
+      | Some u -> "U 1 " ^ hex_of_bytes u
+      | None -> "U 0 -")
+  | ["STY"; id; elem; hex] ->
+    with_misses (fun () -> "Y " ^ hex_of_bytes (sanitize_styles the_interp (get_policy id) (bytes_of_hex elem) (bytes_of_hex hex)))
+  | ["NOATTRS"; id; elem] ->
+    with_misses (fun () -> if allow_no_attrs the_interp (get_policy id) (bytes_of_hex elem) then "B 1" else "B 0")
+  | ["FN"; name; hex] ->
+    let s = bytes_of_hex hex in
+    let bs b = if b then "1" else "0" in
+    let out = match name with
+      | "remove_unicode" -> hex_of_bytes (remove_unicode s)
+      | "is_data_attribute" -> bs (is_data_attribute s)
+      | "normalise" -> hex_of_bytes (normalise s)
+      | "linkable" -> bs (linkable s)
+      | "to_lower" -> hex_of_bytes (to_lower s)
+      | "trim_space" -> hex_of_bytes (trim_space s)
+      | "fields" -> hexes_of_list (fields s)
+      | "escape" -> hex_of_bytes (escape s)
+      | "unescape" -> hex_of_bytes (unescape false s)
+      | "unescape_attr" -> hex_of_bytes (unescape true s)
+      | _ -> failwith ("unknown function " ^ name) in
+    print_string ("V " ^ out ^ "\n")
+  | ["EQFOLD"; a; b] -> print_string (if equal_fold (bytes_of_hex a) (bytes_of_hex b) then "V 1\n" else "V 0\n")
+  | ["DUMP"; id] -> dump_policy (get_policy id)
   | cmd :: _ -> failwith ("unknown command " ^ cmd)
 
 let () =
@@ -81,7 +346,7 @@ let () =
     while true do
       let line = input_line stdin in
       (try handle_line line with
-       | Failure m -> Printf.printf "ERR %s\n" m
+       | Failure msg -> Printf.printf "ERR %s\n" msg
        | Not_found -> print_string "ERR not-found\n")
     done
   with End_of_file -> ()
